@@ -37,6 +37,7 @@ type Oblig struct {
 	Failures []*Failure
 	Secs     float64
 	Known    string
+	Proved   []*Failure // thorough tier: a sample of discharged instances, re-checked by the other solvers
 }
 
 func (o *Oblig) Discharged() bool { return len(o.Failures) == 0 && o.Paths > 0 }
@@ -56,6 +57,7 @@ type Unit struct {
 	lits           map[string]Term
 	litVal         map[string]string // literal constant name -> its text
 	havocSeq       int
+	keepProved     bool
 	havocMemo      map[string]Term
 	obs            map[string]*Oblig
 	obSeq          []string
@@ -460,6 +462,9 @@ func (u *Unit) Prove(st *State, name, class string, tags []string, pos token.Pos
 	r := u.check(st, Not(goal))
 	o.Secs += time.Since(t0).Seconds()
 	if r == "unsat" {
+		if u.keepProved && len(o.Proved) < 2 {
+			o.Proved = append(o.Proved, &Failure{Asserts: append(append([]string(nil), st.PCs...), Not(goal).String()), Goal: goal.String(), Result: r})
+		}
 		st.Assume(goal)
 		return true
 	}
